@@ -25,7 +25,14 @@ pub mod io {
         open spec fn eq_spec(&self, other: &Self) -> bool { *self == *other }
     }
     pub type Result<T> = ::std::result::Result<T, Error>;
+    impl ErrorKind {
+        #[verifier::external_body]
+        pub fn to_string(&self) -> (r: String) { unimplemented!() }
+    }
     impl Error {
+        /// io::Error::new(kind, payload)
+        #[verifier::external_body]
+        pub fn new<E>(kind: ErrorKind, e: E) -> (r: Error) ensures r.spec_kind() == kind { unimplemented!() }
         pub uninterp spec fn spec_kind(&self) -> ErrorKind;
         #[verifier::external_body]
         pub fn kind(&self) -> (r: ErrorKind) ensures r == self.spec_kind() { unimplemented!() }
